@@ -429,7 +429,12 @@ func ruleKeyGlobals(p *Prog, r *Report, c keyFieldsCfg, ctorRecv, ctor string) {
 	const rule = "R-KEY/globals"
 	initF := p.Func(c.pkg, c.initRecv, c.initFn)
 	eqF := p.Func(c.pkg, c.eqRecv, c.eqFn)
-	build := p.Func(c.pkg, ctorRecv, ctor)
+	// the construction of the cached value: everything reachable from the named constructor, or from the lookup function
+	// when the constructor is not a function of its own
+	build := p.TryFunc(c.pkg, ctorRecv, ctor)
+	if build == nil {
+		build = p.Func(c.pkg, c.lookupRecv, c.lookup)
+	}
 	reach := reachableFns(p, []*ssa.Function{build})
 	isOption := func(g *ssa.Global) bool {
 		if g.Pkg == nil || !p.inModule(g.Pkg.Pkg) || !g.Object().Exported() {
